@@ -150,6 +150,22 @@ def clone_group_specs():
             out.append(gen.Spec(tuple(nodes)))
     # a clone nested inside another clone's branch
     out.append(gen.Spec(((-1, "p", None, None), (0, "x", None, None), (1, "q", None, None), (2, "x", None, None), (3, "d", None, None), (2, "d", None, None), (-1, "x", None, None))))
+    # clones nested *directly* below each other (x[x[..]]): with keep_children their children move up several levels
+    for depth in (2, 3):
+        for sibs in itertools.product((False, True), repeat=depth):  # a sibling d next to the x of level k
+            for leaf in (False, True):  # a child d below the innermost x
+                if not leaf and not any(sibs):
+                    continue
+                nodes, parent = [], -1
+                for k in range(depth):
+                    xi = len(nodes)
+                    nodes.append((parent, "x", None, None))
+                    if sibs[k]:
+                        nodes.append((parent, "d", None, None))
+                    parent = xi
+                if leaf:
+                    nodes.append((parent, "d", None, None))
+                out.append(gen.Spec(tuple(nodes)))
     return out
 
 
@@ -186,7 +202,7 @@ def sweep(prop: str, tier: str) -> Result:
     )
     if prop in ("C01", "C02", "C03", "C04", "C13"):
         total.merge(parallel(_targeted_chunk, clone_group_specs(), prop, prop=prop))
-        total.bounds["clone groups (targeted)"] = "three parents each holding a clone x, with/without a child d below x and a sibling d next to x (<= 4 extras), plus a clone nested in a clone: remove (all flag combinations), set_data (with_clones None/False/True) and move_to of every clone"
+        total.bounds["clone groups (targeted)"] = "three parents each holding a clone x, with/without a child d below x and a sibling d next to x (<= 4 extras), plus a clone nested in a clone and chains of 2..3 directly nested clones x[x[..]] with d below the innermost and/or next to each level: remove (all flag combinations), set_data (with_clones None/False/True) and move_to of every clone"
     total.merge(histories(prop, tier))
     return total
 
